@@ -51,6 +51,7 @@ var colConfigs = []colConfig{
 	{"strings-const/int-const", []tok{T("str", 1), T("str", 1), T("str", 1), T("str", 2), T("str", 2)}, []tok{T("int", 2), T("int", 2), T("int", 2), T("int", 2), T("int", 5)}},
 	{"nulls-and-missing", []tok{T("str", 1), T("nstr", 0), T("str", 2), T("miss", 0), T("str", 1)}, []tok{T("int", 1), T("nint", 0), T("int", 2), T("int", 2), T("miss", 0)}},
 	{"int-keys/uint-float", []tok{T("int", 1), T("int", 1), T("int", 2), T("str", 1), T("null", 0)}, []tok{T("uint", 2), T("uint", 3), T("uint", 2), T("float", 3), T("int", 2)}},
+	{"no-numeric-x", []tok{T("str", 1), T("str", 2), T("str", 1), T("str", 2), T("str", 1)}, []tok{T("nint", 0), T("miss", 0), T("str", 26), T("nint", 0), T("miss", 0)}},
 	{"mixed-in-object", []tok{T("str", 1), T("int", 1), T("str", 1), T("str", 2), T("str", 2)}, []tok{T("int", 1), T("str", 26), T("float", 3), T("int", 2), T("int", 2)}},
 }
 
@@ -159,14 +160,14 @@ func histKey(h *vhist) string {
 func run(c *core.Ctx) error {
 	h := &harness{c: c, feat: map[string]int{}}
 	c.Trust("TLC 1.8; specs/LakeAbs.tla (abstract lake, bound to the real lake by C12-C15); the verif hooks meta.Lister.Pull.enter/object; the leg scheduler's quiescence detector; the sequential runtime as the reference of the differential comparison")
-	c.Assume("5 values in 2 loads, histories of <= 4 (quick) / 5 (thorough) operations of {load, addvec, delvec, compact(+vectors), delete}; 6 column configurations over strings, ints, uints, floats, null(string), null(int64), untyped null, missing; 2 scatter legs with the two forced assignments all-to-one-leg and round-robin; vector compiler subset = the program list of vcompile.go")
+	c.Assume("5 values in 2 loads, histories of <= 4 (quick) / 5 (thorough) operations of {load, addvec, delvec, compact(+vectors), delete}; 7 column configurations over strings, ints, uints, floats, null(string), null(int64), untyped null, missing; 2 scatter legs with the two forced assignments all-to-one-leg and round-robin; vector compiler subset = the program list of vcompile.go")
 	c.Rule("case = (column configuration, lake history, step, query, leg assignment) exported by TLC from VecAgg.tla and replayed on a real lake in a child process; non-trivial = the real plan of the query contains a dag.Vectorize at that step (every object has a vector copy); plus (program, value set) pairs run through compiler.VectorCompile and the sequential runtime")
 	if c.Replay != "" {
 		return h.replay()
 	}
 	maxOps, nhist, emitMod := 4, 48, 5
 	if !c.Quick() {
-		maxOps, nhist, emitMod = 5, 600, 7
+		maxOps, nhist, emitMod = 5, 480, 7
 	}
 	mod, cfg := mcModule(maxOps, emitMod, int(c.Seed%int64(emitMod)+int64(emitMod))%emitMod)
 	t0 := time.Now()
@@ -183,6 +184,28 @@ func run(c *core.Ctx) error {
 	if len(hs) == 0 {
 		c.Inconclusive("TLC exported no history")
 		return nil
+	}
+	// non-vacuity of the spec-level invariants: the rule fires in some exported
+	// state without any named deviation (VecAgrees decided something there), and
+	// with one (the deviations are reachable)
+	nClean, nTaint := 0, 0
+	for i := range hs {
+		for _, p := range hs[i].pred {
+			for _, q := range []string{"cbs", "sum", "fcbs"} {
+				if pq, ok := p[q]; ok && pq.Vec {
+					if len(pq.One.Taint) == 0 && len(pq.RR.Taint) == 0 {
+						nClean++
+					} else {
+						nTaint++
+					}
+				}
+			}
+		}
+	}
+	c.Set("spec_states_vectorized_untainted", nClean)
+	c.Set("spec_states_vectorized_tainted", nTaint)
+	if nClean == 0 || nTaint == 0 {
+		c.Inconclusive("vacuous model: %d exported (step, query) pairs vectorized without deviation, %d with", nClean, nTaint)
 	}
 	sort.Slice(hs, func(i, j int) bool { return histKey(&hs[i]) < histKey(&hs[j]) })
 	c.Set("histories_exported", len(hs))
@@ -232,30 +255,37 @@ func run(c *core.Ctx) error {
 		}
 	}
 	t0 = time.Now()
-	// all sampled histories in one child process (respawned only after a crash)
-	batch := jobJ{Kind: "batch"}
-	for _, vh := range picked {
-		batch.Jobs = append(batch.Jobs, h.jobOf(vh))
-	}
-	results, ops, err := h.runChild(batch)
-	if err != nil {
-		return err
-	}
-	for i, vh := range picked {
-		pre := fmt.Sprintf("%d/", i)
-		sub := map[string]evJ{}
-		for k, v := range results {
-			if strings.HasPrefix(k, pre) {
-				sub[strings.TrimPrefix(k, pre)] = v
-			}
+	// the sampled histories run in child processes, 60 per process (a process is
+	// respawned after a crash with the crashed query on its skip list)
+	for lo := 0; lo < len(picked); lo += 60 {
+		hi := lo + 60
+		if hi > len(picked) {
+			hi = len(picked)
 		}
-		var subops []evJ
-		for _, o := range ops {
-			if o.Job == i {
-				subops = append(subops, o)
-			}
+		batch := jobJ{Kind: "batch"}
+		for _, vh := range picked[lo:hi] {
+			batch.Jobs = append(batch.Jobs, h.jobOf(vh))
 		}
-		h.judgeHist(vh, batch.Jobs[i], sub, subops)
+		results, ops, err := h.runChild(batch)
+		if err != nil {
+			return err
+		}
+		for i, vh := range picked[lo:hi] {
+			pre := fmt.Sprintf("%d/", i)
+			sub := map[string]evJ{}
+			for k, v := range results {
+				if strings.HasPrefix(k, pre) {
+					sub[strings.TrimPrefix(k, pre)] = v
+				}
+			}
+			var subops []evJ
+			for _, o := range ops {
+				if o.Job == i {
+					subops = append(subops, o)
+				}
+			}
+			h.judgeHist(vh, batch.Jobs[i], sub, subops)
+		}
 	}
 	c.Set("histories_replayed", len(picked))
 	c.Logf("replayed %d histories on the real lake (child processes): %d evaluations, %d violations, %d known (%.1fs)", len(picked), c.Count("evaluations"), c.Violations(), c.Count("known_finding_hits"), time.Since(t0).Seconds())
@@ -294,7 +324,7 @@ func (h *harness) runChild(job jobJ) (map[string]evJ, []evJ, error) {
 		if err := cmd.Start(); err != nil {
 			return nil, nil, err
 		}
-		timer := time.AfterFunc(5*time.Minute, func() { cmd.Process.Kill() })
+		timer := time.AfterFunc(10*time.Minute, func() { cmd.Process.Kill() })
 		sc := bufio.NewScanner(stdout)
 		sc.Buffer(make([]byte, 1<<20), 1<<24)
 		pending, done := "", false
@@ -507,6 +537,7 @@ func (h *harness) judgeHist(vh *vhist, job jobJ, results map[string]evJ, ops []e
 					if os.Getenv("VERIF_C09_CORRUPT") == "pred" && len(want) > 0 && i == 1 && q == "sum" {
 						want[0] = "77"
 					}
+					c.Add("traces_validated_against_impl", 1)
 					if !eqStrs(want, realC) {
 						c.Drift("as-coded vector semantics: `%s` config %s after %s legs %v: spec %v real %v (spec deviations %v)", queryText[q], cfgName, prefix(vh, i), r.Trace, want, realC, ap.Taint)
 					}
